@@ -53,17 +53,38 @@ def _t(v):
     return tuple(v) if isinstance(v, (list, tuple)) else v
 
 
-def unimodular(rs, n, cplx=False):
-    """Integer (Gaussian-integer) matrix with determinant 1: product of unit
-    lower / upper triangular integer matrices -> exact integer inverse."""
+COND_MAX = 500.0   # a-priori bound: relative error of LAPACK / SuperLU solves <= ~ n * cond * eps ~ 1e-12 << 1e-9
+
+
+def _unimodular_raw(rs, n, cplx, amp):
     L = np.eye(n, dtype=complex if cplx else float)
     U = np.eye(n, dtype=complex if cplx else float)
     for i in range(n):
         for j in range(i):
-            L[i, j] = rs.randint(-2, 2) + (1j * rs.randint(-1, 1) if cplx else 0)
-            U[j, i] = rs.randint(-2, 2) + (1j * rs.randint(-1, 1) if cplx else 0)
+            L[i, j] = rs.randint(-amp, amp) + (1j * rs.randint(-1, 1) if cplx else 0)
+            U[j, i] = rs.randint(-amp, amp) + (1j * rs.randint(-1, 1) if cplx else 0)
     P = np.eye(n)[rs.sample(range(n), n)]
     return P @ L @ U
+
+
+def unimodular(rs, n, cplx=False, cond_max=COND_MAX):
+    """Integer (Gaussian-integer) matrix with determinant of modulus 1: product of unit lower / upper
+    triangular integer matrices -> exact integer inverse.  Only WELL-CONDITIONED draws are kept
+    (2-norm condition number <= cond_max, computed on the exact small-integer matrix), so that the
+    floating-point solvers recover x far below the 1e-9 comparison tolerance for every seed."""
+    for t in range(400):
+        A = _unimodular_raw(rs, n, cplx, 2 if t < 200 else 1)
+        if np.linalg.cond(A) <= cond_max:
+            return A
+    return np.eye(n, dtype=complex if cplx else float)[rs.sample(range(n), n)]
+
+
+def well_conditioned(gen, cond_max=COND_MAX, tries=400):
+    for _ in range(tries):
+        A = gen()
+        if A is not None and np.linalg.cond(A) <= cond_max:
+            return A
+    raise RuntimeError("no well-conditioned matrix generated")
 
 
 def structured(rs, n, mkind):
@@ -72,25 +93,26 @@ def structured(rs, n, mkind):
     csym  complex symmetric (A == A.T) but NOT Hermitian;  cdiag complex diagonal;
     cscal complex multiple of the identity;  rsym real symmetric (indefinite);
     herm  Hermitian (indefinite);  tril / triu triangular (real or complex)."""
+    return well_conditioned(lambda: _structured_raw(rs, n, mkind))
+
+
+def _structured_raw(rs, n, mkind):
     sgn = np.diag([rs.choice((1, -1)) for _ in range(n)]).astype(complex)
     if mkind == "csym":
-        for _ in range(50):
-            U = unimodular(rs, n, True)
-            A = U.T @ sgn @ U
-            if n == 1:
-                A = np.array([[complex(rs.choice((1, -1, 2)), rs.choice((1, -1, 2)))]])
-            if not np.array_equal(A, A.conj().T):
-                return A
-        raise RuntimeError("no non-Hermitian complex-symmetric matrix generated")
+        U = unimodular(rs, n, True, cond_max=4 * COND_MAX ** 0.5)
+        A = U.T @ sgn @ U
+        if n == 1:
+            A = np.array([[complex(rs.choice((1, -1, 2)), rs.choice((1, -1, 2)))]])
+        return A if not np.array_equal(A, A.conj().T) else None
     if mkind == "cdiag":
         return np.diag([complex(rs.choice((1, -1, 2, 0)), rs.choice((1, -1, 2))) for _ in range(n)])
     if mkind == "cscal":
         return complex(rs.choice((0, 1, -1, 2)), rs.choice((1, -1, 2))) * np.eye(n)
     if mkind == "rsym":
-        U = unimodular(rs, n, False)
+        U = unimodular(rs, n, False, cond_max=4 * COND_MAX ** 0.5)
         return U.T @ sgn.real @ U
     if mkind == "herm":
-        U = unimodular(rs, n, True)
+        U = unimodular(rs, n, True, cond_max=4 * COND_MAX ** 0.5)
         return U.conj().T @ sgn @ U
     if mkind in ("tril", "triu", "ctril", "ctriu"):
         cplx = mkind.startswith("c")
